@@ -172,6 +172,13 @@ impl IterableSet {
 
 impl fmt::Display for IterableSet {
     fn fmt(&self, f: &mut fmt::Formatter<'_>) -> fmt::Result {
+        // the range sugar `a..b` only exists in this position: a `range` call anywhere else
+        // (a constant, a function argument) has to be printed as a call
+        if let PreExp::FunctionCall(_, call) = &*self.iterator {
+            if let Some(sugar) = crate::std_fn_to_string(call) {
+                return write!(f, "{} in {}", self.var, sugar);
+            }
+        }
         write!(f, "{} in {}", self.var, *self.iterator)
     }
 }
